@@ -84,6 +84,9 @@ var schedAssumptions = append([]string{
 }, commonAssumptions...)
 
 var specs = []spec{
+	{ID: "C11", Pkg: ".", Level: "model_checking", Instrument: true, Procs: 2,
+		Rule:        "explicit enumeration of playlist histories: the server answers the n-th playlist poll after the events {advance the media sequence by 0,1,2,3,6; append ENDLIST} chosen for every poll, all histories to depth 4 (5), x window size {1,2,3,4,6,10} x type {none, EVENT, VOD} x URI style {relative, absolute, with query, byte range with start, byte range without start} and, with a multivariant entry point, two renditions evolving independently (all depth-3 x depth-2 history pairs); each history is one run of the real Client against a scripted in-process transport inside a synctest bubble; reference model: an integer (next media sequence number) predicting the exact request sequence, Range headers and the final error; states = histories, transitions = events; distinct = distinct (scenario, end, request counts)",
+		Assumptions: append([]string{"client goroutines are scheduled by the Go runtime inside a testing/synctest bubble (virtual clock); the schedule is not enumerated for this property, the playlist history is"}, commonAssumptions...)},
 	{ID: "C14", Pkg: "pkg/playlist", Level: "exploration", Procs: 2,
 		Rule:        "all 2^12 presence combinations of the optional top-level fields of Media x 3 (5) value sets, all 2^10 of Multivariant (variant attributes, second variant, renditions of every referenced type with rotating attribute subsets) x 4 (6) value sets, segment lists of length 1-3 over all 2^7 segment-level flag subsets x 5 value sets with keys changing between segments, every non-empty subset of EXT-X-SERVER-CONTROL attributes; boundary values per field (ints 0/1/2^31-1, durations 10 us..3599.99999 s, times in three zones with ms 0/1/999, byte ranges with and without start); for each value: Unmarshal(Marshal(p)) = p field by field, Marshal fixpoint, kind detection, agreement with an independent reader, and every syntactic variant (CRLF, no trailing newline, unknown tag / comment / blank line at every line position, all attribute permutations up to 4 attributes and rotations/reversal/adjacent swaps beyond, an unknown attribute at every position) decodes to the same value; distinct = distinct marshalled texts",
 		Assumptions: commonAssumptions},
